@@ -3,7 +3,7 @@
 # of its property (quick) and report detected / missed.  Reverts each patch.
 cd /verif
 if ! git -C /repo diff --quiet; then echo "repo dirty"; exit 2; fi
-for d in seeded/*/; do
+for d in /verif/seeded/*/; do
   n=$(basename $d); p=${n%%-*}
   if ! git -C /repo apply --check $d/patch.diff 2>/dev/null; then echo "$n: patch does not apply (source changed)"; continue; fi
   git -C /repo apply $d/patch.diff
